@@ -99,7 +99,7 @@ func main() {
 		if *doHosts {
 			hs = append(hs, hostScenarios...)
 			if ip6LoopbackWorks() {
-				hs = append(hs, "malformed_request_ip6")
+				hs = append(hs, "malformed_request_ip6", "blacklisted_ip6_long")
 			}
 		}
 		if *doSync {
